@@ -112,6 +112,30 @@ CHECKS = {
 
 NOT_BUILT_REASON = "check not built yet in this round (planned, see DESIGN.md §8); no claim is made until its quick command exists"
 
+# what the fifth seeding round added to each check (appended to the level text)
+R5 = {
+ "C01": "Also: the filter text is first put to a twin store whose like-named symbols have other types, and the parsed filter is narrowed to an id set by a condition composed from AST nodes and typed by PostProcess (either operand order).",
+ "C02": "Also: sorting and paging by function-backed symbols whose application state is replaced between two read transactions while the database is not written, and the returned id lists are read again after the transaction ended and the file was rewritten.",
+ "C03": "Also: index look-ups (held values and values nobody holds) made inside a writing transaction, after which every invariant is checked again.",
+ "C04": "Also: two sibling child stores with a like-named reference to one target store (cascade or restrict), target ids of arbitrary bytes (not necessarily UTF-8), a twenty-level cascade chain.",
+ "C05": "Also: ids of 128 and 300 bytes, single AddLink calls to two ids that differ only in letter case.",
+ "C06": "Also: every symbol persisted under another key in a third of the cases, records that share the id of the entity they refer to, a uniquely indexed name of exactly bbolt.MaxKeySize bytes.",
+ "C07": "Also: the body run as a step of MigrationManager.Migrate (both conventions for the version a failed step returns) and a duplicate create of an entity that persists nothing but its id.",
+ "C08": "Also: two registrations sharing the slice of their additional change type, and an update that stores an entity without time stamps unchanged (still one update event).",
+ "C09": "Also: a cascading fk-index store, null and dangling references in non-nullable fk fields (reported, not repairable), a dangling child-store link naming a plain parent entity.",
+ "C10": "Also: function-backed symbols (one answering with nothing for some rows), every sortable symbol on its own in both directions, a second object store iterating the row with null fields first, limits and skips next to MaxInt64.",
+ "C11": "Also: operator keywords inside the string, two comparisons on the same set in one filter, icontains, and an object store whose string accessors hand out live pointers, queried case-insensitively first.",
+ "C12": "Also: atoms that are sub-query set functions over one and the same link set, whitespace inside the datetime( ) token, an earlier diagnostic parse (zitiql.ParseWithDebug) of the same text.",
+ "C13": "Also: the base values of an extended entity (creation / update stamps with and without Migrate, tags, system flag), zone offsets of a minute or two, a copy of the bucket taken inside the writing transaction.",
+ "C14": "Also: cursors opened inside a writing transaction, look-ups of values nobody holds (the index keys stay what they were), a link set established through AddLinks + SetLinks, two stores handed the same base-path slice.",
+ "C15": "Also: an entity constraint registered on the parent store only (a rule about the final state) is probed for every entity through every route; it must always be handed the final state.",
+ "C16": "Also: transactions run as migration steps, operations issued from a pre-commit action registered by a pre-commit action, and histories in which the data moves into a freshly started instance by snapshot restore.",
+ "C17": "Also: overlapping Snapshot requests beside a writer (each must hold the generation committed before it was requested) and a write transaction in flight when a restore arrives.",
+ "C18": "Also: a batched transaction with a pre-commit action beside a failing batch member (bbolt re-runs it alone: all of its work is committed), and one parsed restriction (40-element id list) AND-ed onto every reader's filter.",
+ "C19": "Also: a second object store holding the people as struct values in a map iterated with objectz.IterateMap.",
+ "C20": "Also: symbols wrapped with MapSymbol keep their publicity, dotted .id symbols, sort fields adopted by a query parsed from the empty filter (and the next empty-filter query references nothing).",
+}
+
 def main():
     checks = []
     na = []
@@ -121,6 +145,8 @@ def main():
             na.append({"property_id": pid, "reason": NOT_BUILT_REASON})
             continue
         _, cat, tech, text, note, ref = entry
+        if pid in R5:
+            text = text.rstrip() + " " + R5[pid]
         checks.append({
             "property_id": pid,
             "quick_cmd": "./check %s quick" % pid,
